@@ -802,3 +802,294 @@ pub fn bloom_roundtrip(ctx: &Ctx, st: &crate::c09::BloomState, mk: &dyn Fn() -> 
         }
     }
 }
+
+
+// =============================================================================== Frequent Items / t-digest
+
+fn fi_obs(s: &datasketches::frequencies::FrequentItemsSketch<i64>, items: &[i64]) -> (u64, u64, usize, bool, Vec<(u64, u64, u64)>, usize, usize) {
+    use datasketches::frequencies::ErrorType;
+    (
+        s.total_weight(),
+        s.maximum_error(),
+        s.num_active_items(),
+        s.is_empty(),
+        items.iter().map(|x| (s.estimate(x), s.lower_bound(x), s.upper_bound(x))).collect(),
+        s.frequent_items(ErrorType::NoFalsePositives).len(),
+        s.frequent_items(ErrorType::NoFalseNegatives).len(),
+    )
+}
+
+/// C11 for a Frequent Items state (i64 items).
+pub fn fi_roundtrip(ctx: &Ctx, p: &crate::c07::State, mk: &dyn Fn() -> Value) {
+    use datasketches::frequencies::FrequentItemsSketch;
+    let s = &p.s;
+    let mut items: Vec<i64> = p.truth.keys().copied().collect();
+    items.extend([i64::MIN + 5, 987654321]);
+    let img = match catch(|| s.serialize()) {
+        Ok(b) => b,
+        Err(pi) => {
+            ctx.violation(&format!("panic|{}", pi.site_key()), &format!("FI serialize panicked: {}", pi.message), mk());
+            return;
+        }
+    };
+    let d = match catch(|| FrequentItemsSketch::<i64>::deserialize(&img)) {
+        Err(pi) => {
+            ctx.violation(&format!("panic|{}", pi.site_key()), &format!("FI deserialize of own image panicked: {}", pi.message), with_image(mk, &img));
+            return;
+        }
+        Ok(Err(e)) => {
+            ctx.violation("fi.roundtrip.rejected", &format!("deserialize(serialize(s)) fails: {e}"), with_image(mk, &img));
+            return;
+        }
+        Ok(Ok(d)) => d,
+    };
+    let (a, b) = (fi_obs(s, &items), fi_obs(&d, &items));
+    if a != b || d.lg_max_map_size() != s.lg_max_map_size() || d.maximum_map_capacity() != s.maximum_map_capacity() {
+        let what = if a.0 != b.0 { "total_weight" } else if a.1 != b.1 { "maximum_error" } else if a.2 != b.2 { "num_active_items" } else if a.3 != b.3 { "is_empty" } else if a.4 != b.4 { "estimates/bounds" } else { "frequent_items/configuration" };
+        ctx.violation(&format!("fi.roundtrip.queries.{}", what.replace('/', "_")), &format!("{what} differ after a round trip: {:?} vs {:?}", (a.0, a.1, a.2, a.3), (b.0, b.1, b.2, b.3)), with_image(mk, &img));
+        return;
+    }
+    // re-serialization encodes the same state (table order may differ: compare decoded sets)
+    match (spec_misc::fi_decode(&img, false), spec_misc::fi_decode(&d.serialize(), false)) {
+        (Ok(x), Ok(y)) => {
+            let set = |im: &spec_misc::FiImage| -> std::collections::BTreeSet<(u64, u64)> {
+                match &im.items {
+                    spec_misc::FiItems::Longs(v) => v.iter().copied().zip(im.counts.iter().copied()).collect(),
+                    _ => Default::default(),
+                }
+            };
+            if set(&x) != set(&y) || x.stream_weight != y.stream_weight || x.offset != y.offset || x.lg_max != y.lg_max || x.empty != y.empty {
+                ctx.violation("fi.roundtrip.reserialize", "re-serialized image encodes a different state", with_image(mk, &img));
+                return;
+            }
+        }
+        _ => {
+            ctx.violation("fi.roundtrip.reserialize", "own image not decodable by the spec decoder", with_image(mk, &img));
+            return;
+        }
+    }
+    // one-step bisimulation (queries only: purge sampling depends on table layout, which a
+    // round trip legitimately changes, so the bounds may differ while both bracket the truth)
+    for (x, c) in [(items[0], 1u64), (424242, 1), (items[0], 5)] {
+        let mut aa = s.clone();
+        let mut bb = d.clone();
+        if catch(|| aa.update_with_count(x, c)).is_err() != catch(|| bb.update_with_count(x, c)).is_err() {
+            ctx.violation("fi.roundtrip.continuation_panics", "update panics for only one of original/restored", with_image(mk, &img));
+            return;
+        }
+        if aa.total_weight() != bb.total_weight() || aa.upper_bound(&x) < p.truth.get(&x).copied().unwrap_or(0) + c || bb.upper_bound(&x) < p.truth.get(&x).copied().unwrap_or(0) + c || bb.lower_bound(&x) > p.truth.get(&x).copied().unwrap_or(0) + c {
+            ctx.violation("fi.roundtrip.continuation", &format!("after update({x},{c}) the restored sketch no longer brackets the truth or has a different total weight"), with_image(mk, &img));
+            return;
+        }
+    }
+    let mut ma = FrequentItemsSketch::<i64>::new(p.size);
+    let mut mb = FrequentItemsSketch::<i64>::new(p.size);
+    ma.merge(s);
+    mb.merge(&d);
+    if ma.total_weight() != mb.total_weight() || ma.maximum_error() != mb.maximum_error() {
+        ctx.violation("fi.roundtrip.merge", &format!("merge of the restored sketch gives total/max_error {}/{} instead of {}/{}", mb.total_weight(), mb.maximum_error(), ma.total_weight(), ma.maximum_error()), with_image(mk, &img));
+    }
+}
+
+/// C12 + C18 for a Frequent Items state.
+pub fn fi_spec(ctx: &Ctx, p: &crate::c07::State, mk: &dyn Fn() -> Value) {
+    let s = &p.s;
+    let img = match catch(|| s.serialize()) {
+        Ok(b) => b,
+        Err(pi) => {
+            ctx.violation(&format!("panic|{}", pi.site_key()), &format!("FI serialize panicked: {}", pi.message), mk());
+            return;
+        }
+    };
+    if s.num_active_items() > s.maximum_map_capacity() {
+        ctx.violation("fi.size.capacity", &format!("{} active items, maximum_map_capacity {}", s.num_active_items(), s.maximum_map_capacity()), mk());
+    }
+    match spec_misc::fi_decode(&img, false) {
+        Err(e) => {
+            ctx.violation("fi.image.undecodable", &format!("the spec decoder rejects the emitted image: {e}"), with_image(mk, &img));
+        }
+        Ok(im) => {
+            let mut bad = vec![];
+            if im.total_len != img.len() {
+                bad.push(("fi.image.length", format!("image is {} bytes, the layout accounts for {}", img.len(), im.total_len)));
+            }
+            if im.empty != (p.weight == 0) {
+                bad.push(("fi.image.empty_flag", format!("EMPTY flag {} but stream weight {}", im.empty, p.weight)));
+            }
+            if !im.empty {
+                if im.stream_weight != p.weight || im.stream_weight != s.total_weight() {
+                    bad.push(("fi.image.stream_weight", format!("stream weight {} in the image, exact weight {}", im.stream_weight, p.weight)));
+                }
+                if im.offset != s.maximum_error() {
+                    bad.push(("fi.image.offset", format!("offset {} in the image, maximum_error {}", im.offset, s.maximum_error())));
+                }
+                if im.counts.len() != s.num_active_items() {
+                    bad.push(("fi.image.active_items", format!("{} items in the image, {} active", im.counts.len(), s.num_active_items())));
+                }
+                if let spec_misc::FiItems::Longs(v) = &im.items {
+                    for (x, c) in v.iter().zip(im.counts.iter()) {
+                        let item = *x as i64;
+                        if s.lower_bound(&item) != *c || *c == 0 {
+                            bad.push(("fi.image.counts", format!("item {item} has count {c} in the image but lower_bound {}", s.lower_bound(&item))));
+                            break;
+                        }
+                    }
+                }
+                if im.lg_max != s.lg_max_map_size() || im.lg_cur != s.lg_cur_map_size() {
+                    bad.push(("fi.image.lg_sizes", format!("lg sizes {}/{} in the image, sketch {}/{}", im.lg_max, im.lg_cur, s.lg_max_map_size(), s.lg_cur_map_size())));
+                }
+                if img.len() != 32 + 16 * im.counts.len() {
+                    bad.push(("fi.size.image", format!("image is {} bytes for {} items", img.len(), im.counts.len())));
+                }
+            } else if img.len() != 8 {
+                bad.push(("fi.size.image", format!("empty image is {} bytes", img.len())));
+            }
+            for (k, w) in bad {
+                ctx.violation(k, &w, with_image(mk, &img));
+            }
+        }
+    }
+}
+
+fn td_obs(t: &mut datasketches::tdigest::TDigestMut) -> (u16, bool, Option<u64>, Option<u64>, u64, Vec<u64>) {
+    let mut q = vec![];
+    for i in 0..=8 {
+        q.push(t.quantile(i as f64 / 8.0).map(|x| x.to_bits()).unwrap_or(0));
+    }
+    if let (Some(a), Some(b)) = (t.min_value(), t.max_value()) {
+        for i in 0..=8 {
+            q.push(t.rank(a + (b - a) * i as f64 / 8.0).map(|x| x.to_bits()).unwrap_or(0));
+        }
+    }
+    (t.k(), t.is_empty(), t.min_value().map(|x| x.to_bits()), t.max_value().map(|x| x.to_bits()), t.total_weight(), q)
+}
+
+/// C11 for a t-digest state.
+pub fn td_roundtrip(ctx: &Ctx, t: &datasketches::tdigest::TDigestMut, mk: &dyn Fn() -> Value) {
+    use datasketches::tdigest::TDigestMut;
+    let mut s = t.clone();
+    let img = match catch(|| s.serialize()) {
+        Ok(b) => b,
+        Err(p) => {
+            ctx.violation(&format!("panic|{}", p.site_key()), &format!("t-digest serialize panicked: {}", p.message), mk());
+            return;
+        }
+    };
+    let mut d = match catch(|| TDigestMut::deserialize(&img, false)) {
+        Err(p) => {
+            ctx.violation(&format!("panic|{}", p.site_key()), &format!("t-digest deserialize of own image panicked: {}", p.message), with_image(mk, &img));
+            return;
+        }
+        Ok(Err(e)) => {
+            ctx.violation("td.roundtrip.rejected", &format!("deserialize(serialize(s)) fails: {e}"), with_image(mk, &img));
+            return;
+        }
+        Ok(Ok(d)) => d,
+    };
+    // `s` has been compressed by serialize(); the original `t` may still have buffered values
+    let mut orig = t.clone();
+    match catch(|| (td_obs(&mut orig), td_obs(&mut s), td_obs(&mut d))) {
+        Err(p) => {
+            ctx.violation(&format!("panic|{}", p.site_key()), &format!("t-digest queries panicked: {}", p.message), with_image(mk, &img));
+            return;
+        }
+        Ok((o, a, b)) => {
+            if a != b || o != a {
+                let what = if a.4 != b.4 { "total_weight" } else if a.2 != b.2 || a.3 != b.3 { "min/max" } else if a.0 != b.0 { "k" } else { "rank/quantile grid" };
+                ctx.violation(&format!("td.roundtrip.queries.{}", what.replace(['/', ' '], "_")), &format!("{what} differ between the digest, its serialized self and the restored digest"), with_image(mk, &img));
+                return;
+            }
+        }
+    }
+    match catch(|| d.serialize()) {
+        Ok(img2) => {
+            if img2 != img {
+                ctx.violation("td.roundtrip.reserialize", "re-serialization is not byte-identical", with_image(mk, &img));
+                return;
+            }
+        }
+        Err(p) => {
+            ctx.violation(&format!("panic|{}", p.site_key()), &format!("re-serialize panicked: {}", p.message), with_image(mk, &img));
+            return;
+        }
+    }
+    // one-step bisimulation: the same batch of updates / a merge on both gives the same image
+    for batch in 0..3 {
+        let mut a = s.clone();
+        let mut b = d.clone();
+        let r = catch(|| {
+            match batch {
+                0 => {
+                    a.update(0.5);
+                    b.update(0.5);
+                }
+                1 => {
+                    for i in 0..(4 * (a.k() as usize) + 50) {
+                        let v = ((i * 37) % 101) as f64 - 50.0;
+                        a.update(v);
+                        b.update(v);
+                    }
+                }
+                _ => {
+                    a.merge(&d);
+                    b.merge(&s);
+                }
+            }
+            (a.serialize(), b.serialize())
+        });
+        match r {
+            Err(p) => {
+                ctx.violation(&format!("panic|{}", p.site_key()), &format!("continuation panicked: {}", p.message), with_image(mk, &img));
+                return;
+            }
+            Ok((x, y)) => {
+                if x != y {
+                    ctx.violation("td.roundtrip.continuation", &format!("continuation {batch} (0: one update, 1: a batch crossing a compress, 2: merge) diverges between original and restored digest"), with_image(mk, &img));
+                    return;
+                }
+            }
+        }
+    }
+}
+
+/// C12 + C18 for a t-digest state.
+pub fn td_spec(ctx: &Ctx, t: &datasketches::tdigest::TDigestMut, mk: &dyn Fn() -> Value) {
+    let mut s = t.clone();
+    let img = match catch(|| s.serialize()) {
+        Ok(b) => b,
+        Err(p) => {
+            ctx.violation(&format!("panic|{}", p.site_key()), &format!("t-digest serialize panicked: {}", p.message), mk());
+            return;
+        }
+    };
+    match crate::tdm::decode(&img) {
+        Err(e) => {
+            ctx.violation("td.image.undecodable", &format!("the spec decoder rejects the emitted image: {e}"), with_image(mk, &img));
+        }
+        Ok(im) => {
+            let mut bad = vec![];
+            if im.k != t.k() {
+                bad.push(("td.image.k", format!("k {} in the image, digest {}", im.k, t.k())));
+            }
+            if im.total_weight() != t.total_weight() {
+                bad.push(("td.image.total_weight", format!("centroid weights + buffered sum to {}, total_weight {}", im.total_weight(), t.total_weight())));
+            }
+            if !t.is_empty() && (Some(im.min.to_bits()) != t.min_value().map(f64::to_bits) || Some(im.max.to_bits()) != t.max_value().map(f64::to_bits)) {
+                bad.push(("td.image.min_max", format!("min/max {}/{} in the image, digest {:?}/{:?}", im.min, im.max, t.min_value(), t.max_value())));
+            }
+            if (im.flags & crate::tdm::FLAG_EMPTY != 0) != t.is_empty() {
+                bad.push(("td.image.empty_flag", format!("EMPTY flag {} but is_empty {}", im.flags & crate::tdm::FLAG_EMPTY != 0, t.is_empty())));
+            }
+            if im.centroids.windows(2).any(|w| w[0].0 > w[1].0) || im.centroids.iter().any(|c| c.1 == 0) {
+                bad.push(("td.image.centroids", "centroid means not sorted or a zero weight".to_string()));
+            }
+            // C18: image size bounded by k alone
+            if img.len() > 32 + 16 * (2 * t.k() as usize + 30) {
+                bad.push(("td.size.image", format!("image is {} bytes for k {}", img.len(), t.k())));
+            }
+            for (k, w) in bad {
+                ctx.violation(k, &w, with_image(mk, &img));
+            }
+        }
+    }
+}
